@@ -28,7 +28,10 @@ class DefaultSettings(MagicProperties):
 
     def reset(self):
         """Resets all nested properties to their hard coded default values"""
-        self.update(get_defaults_dict(), _match_properties=False)
+        # rebuild from the hard coded defaults only (not merged into the current values),
+        # so that properties without a hard coded entry are reset as well
+        for key, val in get_defaults_dict().items():
+            setattr(self, key, val)
         return self
 
     @property
